@@ -34,6 +34,14 @@ theorem C02_refines_post (c : RefCfg) (ev : Visit α → σ → EvalOut × σ) (
     processRoot c ev root acc = (let r := refRoot c ev root ⟨acc, 0, 0⟩; resOf r.1 r.2) :=
   processRoot_post c ev hpost root hH acc
 
+/-- Post-order with no exception: since `process_dir` walks `LINK/` for a starting point that is a
+    link to a directory under -H (`/repo` c5fa7bc; the walk machine defers such a root like any
+    directory), the refinement holds for every starting point. -/
+theorem C02_refines_post_any (c : RefCfg) (ev : Visit α → σ → EvalOut × σ) (hpost : c.depthFirst = true)
+    (root : Node α) (acc : σ) :
+    processRoot c ev root acc = (let r := refRoot c ev root ⟨acc, 0, 0⟩; resOf r.1 r.2) :=
+  processRoot_postAny c ev hpost root acc
+
 /-- mindepth > maxdepth: nothing at all is evaluated (the evaluator's state is untouched), whatever
     the tree; diagnostics for unreadable parts may still be produced. -/
 theorem C02_empty_range (c : RefCfg) (ev : Visit α → σ → EvalOut × σ) (h : c.minDepth > c.maxDepth)
